@@ -55,7 +55,8 @@ std::string dw_addr(int d);
 
 // tracers / reporters
 int tracer_depth();
-void push_tracer();
+void push_tracer(int kind);   // 0: recording tracer, 1: the library's stream_tracer on a string stream
+void drain_stream_tracers();
 void pop_tracer();
 int reporter_gen();
 // installs generation gen+1 through one of the two set_reporter overloads; returns true iff the
